@@ -31,6 +31,14 @@ func vT16Server() *Server {
 	parse := func(ctx context.Context, query string) (PreparedStatements, error) {
 		vMark("handler_start")
 		vMark("handler_end")
+		if query == "ok" {
+			fn := func(ctx context.Context, dw DataWriter, params []Parameter) error {
+				vMark("handler_start")
+				vMark("handler_end")
+				return dw.Complete("T")
+			}
+			return Prepared(NewStatement(fn)), nil
+		}
 		return nil, errors.New("verif: no statements")
 	}
 	srv, err := NewServer(parse, MessageBufferSize(64))
@@ -54,7 +62,25 @@ func vT16Serve(srv *Server) {
 
 func vT16Conn(srv *Server, r int) {
 	var input []byte
-	if r < 0 {
+	stall := false
+	if r == -2 || r == -3 {
+		// scenarios 3 and 4: a client that goes silent in the middle of a message
+		// — an ordinary one (-2), or one that declares more than the limit of 64
+		// (-3) — and never sends the rest
+		if r == -2 {
+			input = vCat([]byte{'Q', 0, 0, 0, 24}, []byte("half a que"))
+		} else {
+			input = vCat([]byte{'Q', 0, 0, 0, 204}, []byte("oversized, ten bytes of two hundred"))
+		}
+		stall = true
+		r = 1
+	} else if r == -4 {
+		// scenario 5: an extended-query cycle in progress — Parse, Parse, Sync —
+		// so that a Close may fall between two messages of one cycle
+		parse := vMsgBytes('P', vCat(vCStr(nil), vCStr([]byte("ok")), vU16(0)))
+		input = vCat(parse, parse, vMsgBytes('S', nil))
+		r = 3
+	} else if r < 0 {
 		// scenario 2: an extended-query error (Bind of an unknown statement), a
 		// pipelined message that is discarded, Sync, then one simple query
 		input = vCat(
@@ -69,6 +95,7 @@ func vT16Conn(srv *Server, r int) {
 		}
 	}
 	conn := vNewConn(input)
+	conn.stall = stall
 	ses, rd, wr := vSession(srv, conn)
 	ctx := vCtx(srv)
 	for i := 0; i < r; i++ {
@@ -125,23 +152,17 @@ func VerifT16Replay() {
 			fn()
 		}()
 	}
-	threads := map[string]bool{}
-	for _, s := range vVec.Schedule {
-		threads[s.Thread] = true
-	}
+	// every thread of the scenario is started, also one that takes no step in
+	// the schedule (a Close that is blocked from the start is part of a deadlock)
 	r := vParam("R", 1)
-	if threads["closeA"] {
-		start("closeA", func() { vT16Close(srv) })
-	}
-	if threads["closeB"] {
-		start("closeB", func() { vT16Close(srv) })
-	}
-	if threads["serve"] {
-		start("serve", func() { vT16Serve(srv) })
-	}
-	if threads["conn"] {
-		start("conn", func() { vT16Conn(srv, r) })
-	}
+	start("closeA", func() { vT16Close(srv) })
+	start("closeB", func() { vT16Close(srv) })
+	start("serve", func() { vT16Serve(srv) })
+	start("conn", func() {
+		// a stalled connection blocks for good: it counts as done for the replay
+		vOnStall = func() { ctl.finish("conn"); wg.Done() }
+		vT16Conn(srv, r)
+	})
 	done := make(chan struct{})
 	go func() { wg.Wait(); close(done) }()
 	select {
